@@ -162,6 +162,10 @@ def eqOp : List String → Option String
 def c06Op : List String → Option String
   | ["spec.c06", honest, outcome, unchanged, hasData] =>
       some (toString (Spec.rejectInertOk (honest == "t") outcome (unchanged == "t") (hasData == "t")))
+  | ["spec.c06seq", acc, dirOk, sessOk, tampered, n, maxAcc, rej] =>
+      match n.toNat?, maxAcc.toNat?, rej.toNat? with
+      | some n, some m, some r => some (toString (Spec.acceptWindowOk (acc == "t") (dirOk == "t") (sessOk == "t") (tampered == "t") n m r))
+      | _, _, _ => none
   | ["spec.c06w", outcome, unchanged, hasData] =>
       some (toString (Spec.rejectOrUnparsedOk outcome (unchanged == "t") (hasData == "t")))
   | _ => none
